@@ -239,6 +239,7 @@ class _O(object):
     def __init__(self, o):
         self.trace = o.trace
         self.notes = o.notes
+        self.steps = o.steps
         f = o.final
         if f[0] == 'err':
             f = ('err', norm_code(f[1]), f[2])
